@@ -193,8 +193,8 @@ def _call(world, options, entry, cb):
 
 
 def _ext_bytes(t) -> bytes:
-    # ExternalTensor.tobytes() asserts on zero-size tensors (nothing is mapped); not this property's business
-    return b"" if t.size == 0 else t.tobytes()
+    # (zero-size tensors used to fail an assertion in tobytes(); repaired in /repo 9056c98)
+    return t.tobytes()
 
 
 def _file_meta(path: str):
